@@ -38,7 +38,14 @@ def gen_cases(tier, seed):
                         continue
                     if n == mx and tier == 'quick' and (recycle, timeout) not in ((1, 1), (2, 1), (2, 0.5), (3, 3)):
                         continue
-                    yield {'vec': list(vec), 'recycle': recycle, 'timeout': timeout, 'bound': 2 if n <= 2 or tier == 'thorough' else 1, 'consumer': ['drain']}
+                    b = 2 if n <= 2 or tier == 'thorough' else 1
+                    if list(vec).count('late_unkillable') >= 2 and n >= 3:
+                        b = 1   # several surviving workers at once: the two-preemption space exceeded the execution cap; completed at one
+                    yield {'vec': list(vec), 'recycle': recycle, 'timeout': timeout, 'bound': b, 'consumer': ['drain']}
+            if n >= 2 and n < mx or (n == mx and len(set(vec)) <= 2):
+                # timed waits of the parent other than the result poll (e.g. a join with a timeout) may expire: one budgeted expiry
+                yield {'vec': list(vec), 'recycle': 1, 'timeout': 1, 'bound': 1, 'consumer': ['drain'], 'timers': 1}
+                yield {'vec': list(vec), 'recycle': 2, 'timeout': 1, 'bound': 1, 'consumer': ['drain'], 'timers': 1}
             if n >= 2:
                 for k in range(1, n + 1):
                     for kind in ('close', 'raise', 'drop'):
@@ -59,7 +66,7 @@ def run_case(case):
     if case.get('real'):
         return real_run(vec, case['consumer'])
     cfg = {'recycle': case['recycle'], 'timeout': case['timeout'], 'keep': False}
-    ex, viols, outcomes = Q.explore_config(vec, cfg, case['bound'], consumer=tuple(case['consumer']), want=('liveness', 'verdicts'))
+    ex, viols, outcomes = Q.explore_config(vec, cfg, case['bound'], consumer=tuple(case['consumer']), want=('liveness', 'verdicts'), timer_budget=case.get('timers', 0))
     viols = [v for v in viols if not v['sig'].startswith('verdicts:') or v['sig'].startswith('verdicts:ids') or 'status' in v['sig']]
     # C13 owns liveness / bounds; of the verdict oracle only "the run continues" (status of later recordings, one per id) is used here
     return dict(viol=viols, obs=repr(sorted(outcomes))[:1500], states=list(outcomes), nontrivial=any(b != 'equal' for b in vec), ntkey=repr(case),
@@ -136,4 +143,4 @@ def real_child():
 
 def replay_one(case, violation):
     cfg = {'recycle': case['recycle'], 'timeout': case['timeout'], 'keep': False}
-    return Q.replay_schedule(tuple(case['vec']), cfg, tuple(case['consumer']), violation['schedule'], ('liveness', 'verdicts'))
+    return Q.replay_schedule(tuple(case['vec']), cfg, tuple(case['consumer']), violation['schedule'], ('liveness', 'verdicts'), timer_budget=case.get('timers', 0))
